@@ -1,47 +1,47 @@
 (* S-expression driver for the extracted models: one case per line, "<name> <sexp>". *)
-open Fsmodel
+module F = Fsmodel
 
-let rec pos_of_int n = if n = 1 then XH else if n land 1 = 0 then XO (pos_of_int (n lsr 1)) else XI (pos_of_int (n lsr 1))
-let z_of_small n = if n = 0 then Z0 else if n > 0 then Zpos (pos_of_int n) else Zneg (pos_of_int (-n))
-let rec int_of_pos = function XH -> 1 | XO p -> 2 * int_of_pos p | XI p -> 2 * int_of_pos p + 1
-let int_of_small = function Z0 -> 0 | Zpos p -> int_of_pos p | Zneg p -> - (int_of_pos p)
+let rec pos_of_int n = if n = 1 then F.XH else if n land 1 = 0 then F.XO (pos_of_int (n lsr 1)) else F.XI (pos_of_int (n lsr 1))
+let z_of_small n = if n = 0 then F.Z0 else if n > 0 then F.Zpos (pos_of_int n) else F.Zneg (pos_of_int (-n))
+let rec int_of_pos = function F.XH -> 1 | F.XO p -> 2 * int_of_pos p | F.XI p -> 2 * int_of_pos p + 1
+let int_of_small = function F.Z0 -> 0 | F.Zpos p -> int_of_pos p | F.Zneg p -> - (int_of_pos p)
 
 let chunk = 1_000_000_000_000_000 (* 10^15 *)
 let zchunk = z_of_small chunk
 
 (* decimal digits (no sign) -> Z *)
-let z_of_digits (s : string) : z =
+let z_of_digits (s : string) : F.z =
   let n = String.length s in
   if n <= 15 then z_of_small (int_of_string s)
   else begin
     let first = n mod 15 in
-    let acc = ref (if first = 0 then Z0 else z_of_small (int_of_string (String.sub s 0 first))) in
+    let acc = ref (if first = 0 then F.Z0 else z_of_small (int_of_string (String.sub s 0 first))) in
     let i = ref first in
     while !i < n do
-      acc := drv_add (drv_mul !acc zchunk) (z_of_small (int_of_string (String.sub s !i 15)));
+      acc := F.drv_add (F.drv_mul !acc zchunk) (z_of_small (int_of_string (String.sub s !i 15)));
       i := !i + 15
     done; !acc
   end
 
 let z_of_string s =
-  if String.length s > 0 && s.[0] = '-' then drv_opp (z_of_digits (String.sub s 1 (String.length s - 1)))
+  if String.length s > 0 && s.[0] = '-' then F.drv_opp (z_of_digits (String.sub s 1 (String.length s - 1)))
   else z_of_digits s
 
-let rec digits_of_nonneg (z : z) : string =
-  let (q, r) = drv_quotrem z zchunk in
+let rec digits_of_nonneg (z : F.z) : string =
+  let (q, r) = F.drv_quotrem z zchunk in
   match q with
-  | Z0 -> string_of_int (int_of_small r)
+  | F.Z0 -> string_of_int (int_of_small r)
   | _ -> digits_of_nonneg q ^ Printf.sprintf "%015d" (int_of_small r)
 
 let string_of_z z = match z with
-  | Zneg p -> "-" ^ digits_of_nonneg (Zpos p)
+  | F.Zneg p -> "-" ^ digits_of_nonneg (F.Zpos p)
   | _ -> digits_of_nonneg z
 
-let parse_sexp (s : string) (start : int) : sexp =
+let parse_sexp (s : string) (start : int) : F.sexp =
   let n = String.length s in
   let pos = ref start in
   let rec skip () = if !pos < n && (s.[!pos] = ' ' || s.[!pos] = '\t') then (incr pos; skip ()) in
-  let rec item () : sexp =
+  let rec item () : F.sexp =
     skip ();
     if s.[!pos] = '(' then begin
       incr pos;
@@ -51,17 +51,17 @@ let parse_sexp (s : string) (start : int) : sexp =
         skip ();
         if s.[!pos] = ')' then (incr pos; fin := true) else acc := item () :: !acc
       done;
-      L (List.rev !acc)
+      F.L (List.rev !acc)
     end else begin
       let b = !pos in
       while !pos < n && s.[!pos] <> ' ' && s.[!pos] <> ')' && s.[!pos] <> '(' do incr pos done;
-      A (z_of_string (String.sub s b (!pos - b)))
+      F.A (z_of_string (String.sub s b (!pos - b)))
     end in
   item ()
 
 let rec print_sexp buf = function
-  | A z -> Buffer.add_string buf (string_of_z z)
-  | L l -> Buffer.add_char buf '(';
+  | F.A z -> Buffer.add_string buf (string_of_z z)
+  | F.L l -> Buffer.add_char buf '(';
       List.iteri (fun i x -> if i > 0 then Buffer.add_char buf ' '; print_sexp buf x) l;
       Buffer.add_char buf ')'
 
